@@ -7,6 +7,7 @@ CONSTANTS
   ModeSet = {0, 1, 2, 3}
   Vals = "small"
   Perturb = {"none", "info", "psk", "pskid", "mode", "kdf", "aead", "skr", "enc", "pks", "shift"}
+  Impost = FALSE
   Ordered = TRUE
   SetupSMenu <- MC_SetupSMenu
   SetupRMenu <- MC_SetupRMenu
@@ -24,9 +25,11 @@ CONSTANTS
   MaxExports = 0
   MaxSetSeq = 0
   MaxShots = 0
-  OvfFirstInOpen = FALSE
+  OvfFirstInOpen = TRUE
   RecordHist = FALSE
+  HistLen = 0
 INVARIANTS
   Binding AuthSound PskSound
-ACTION_CONSTRAINT InOrder
+VIEW CoreView
+ACTION_CONSTRAINT InOrder CheckLast
 CHECK_DEADLOCK FALSE
